@@ -59,13 +59,13 @@ Scale(k, z) == <<k * z[1], k * z[2]>>
 (* edge length len, cell area, terminals (sets of sites).  Orientation is mixed on   *)
 (* purpose (i > j occurs).                                                           *)
 InstData ==
-  [ strip6 |-> [ n     |-> 6,
+  [ strip6 |-> [ name  |-> "strip6", n |-> 6,
                  edges |-> << <<1,2>>, <<1,3>>, <<2,3>>, <<2,4>>, <<4,3>>, <<3,5>>, <<4,5>>, <<4,6>>, <<6,5>> >>,
                  w     |-> <<2, 1, 3, 1, 2, 1, 3, 2, 1>>,
                  len   |-> <<1, 2, 1, 2, 1, 2, 1, 2, 1>>,
                  area  |-> <<2, 3, 4, 4, 3, 2>>,
                  term  |-> {1, 2, 5, 6} ],
-    fan5   |-> [ n     |-> 5,
+    fan5   |-> [ name  |-> "fan5", n |-> 5,
                  edges |-> << <<1,2>>, <<2,3>>, <<3,4>>, <<4,1>>, <<1,5>>, <<2,5>>, <<5,3>>, <<5,4>> >>,
                  w     |-> <<1, 2, 1, 3, 2, 1, 1, 2>>,
                  len   |-> <<2, 1, 2, 1, 1, 2, 1, 2>>,
@@ -97,15 +97,24 @@ SumW(m, i) ==
         ELSE S[k - 1] + (IF m.edges[k][1] = i \/ m.edges[k][2] = i THEN m.w[k] ELSE 0)
   IN S[NE(m)]
 
+\* constant tables per instance (evaluated once): the edge joining i and j (+e: e = (i, j), -e: e = (j, i),
+\* 0: none) and the sum of the weights around a site
+EdgeTab == [name \in DOMAIN InstData |->
+              LET m == InstData[name] IN
+              [i \in SitesOf(m), j \in SitesOf(m) |->
+                 IF \E e \in EdgesOf(m) : m.edges[e] = <<i, j>> THEN CHOOSE e \in EdgesOf(m) : m.edges[e] = <<i, j>>
+                 ELSE IF \E e \in EdgesOf(m) : m.edges[e] = <<j, i>> THEN -(CHOOSE e \in EdgesOf(m) : m.edges[e] = <<j, i>>)
+                 ELSE 0]]
+SumWTab == [name \in DOMAIN InstData |-> [i \in SitesOf(InstData[name]) |-> SumW(InstData[name], i)]]
+
 BuildLap(m, q, P) ==
   [i \in SitesOf(m), j \in SitesOf(m) |->
      IF i \in P THEN (IF i = j THEN <<m.area[i], 0>> ELSE Zero)
-     ELSE IF i = j THEN <<-SumW(m, i), 0>>
-     ELSE IF \E e \in EdgesOf(m) : m.edges[e] = <<i, j>>
-            THEN LET e == CHOOSE e \in EdgesOf(m) : m.edges[e] = <<i, j>> IN Scale(m.w[e], U4(q[e]))
-     ELSE IF \E e \in EdgesOf(m) : m.edges[e] = <<j, i>>
-            THEN LET e == CHOOSE e \in EdgesOf(m) : m.edges[e] = <<j, i>> IN Scale(m.w[e], Conj(U4(q[e])))
-     ELSE Zero]
+     ELSE IF i = j THEN <<-SumWTab[m.name][i], 0>>
+     ELSE LET e == EdgeTab[m.name][i, j] IN
+          IF e > 0 THEN Scale(m.w[e], U4(q[e]))                 \* U_ij
+          ELSE IF e < 0 THEN Scale(m.w[-e], Conj(U4(q[-e])))    \* U_ji = conj(U_ij)
+          ELSE Zero]
 
 BuildGrad(m, q) ==
   [e \in EdgesOf(m), s \in SitesOf(m) |->
@@ -121,13 +130,13 @@ LinkVal(m, q, k) == IF k <= NE(m) THEN Scale(m.w[k], U4(q[k]))
                     ELSE Scale(m.w[k - NE(m)], Conj(U4(q[k - NE(m)])))
 FreeRowsOf(m, P) == [k \in 1..2 * NE(m) |-> LinkRow(m, k) \notin P]
 
+\* entry (i, j) is overwritten iff it occurs in the (masked, possibly truncated) list of link entries
 RefreshLap(m, L, q, mask) ==
   LET top == IF MBothHalves THEN 2 * NE(m) ELSE NE(m) IN
   [i \in SitesOf(m), j \in SitesOf(m) |->
-     IF \E k \in 1..top : mask[k] /\ LinkRow(m, k) = i /\ LinkCol(m, k) = j
-       THEN LET k == CHOOSE k \in 1..top : mask[k] /\ LinkRow(m, k) = i /\ LinkCol(m, k) = j
-            IN LinkVal(m, q, k)
-       ELSE L[i, j]]
+     LET e == EdgeTab[m.name][i, j]
+         k == IF e > 0 THEN e ELSE IF e < 0 THEN NE(m) - e ELSE 0     \* LinkRow(k) = i, LinkCol(k) = j
+     IN IF k # 0 /\ k <= top /\ mask[k] THEN LinkVal(m, q, k) ELSE L[i, j]]
 
 RefreshGrad(m, G, q) ==
   [e \in EdgesOf(m), s \in SitesOf(m) |-> IF s = m.edges[e][2] THEN U4(q[e]) ELSE G[e, s]]
@@ -212,7 +221,9 @@ OpsCall(k) == /\ pc = "ops" /\ calls < MaxCalls
               /\ SetLinkExponents(QOfId(M, k))
               /\ hist' = Append(hist, k)
               /\ UNCHANGED <<cfg, stepvars>>
-NextOps == \E k \in QIds : OpsCall(k)
+OpsBuild == ~built /\ \E k \in QIds : OpsCall(k)       \* first call: builds
+OpsRefresh == built /\ \E k \in QIds : OpsCall(k)      \* later calls: refresh in place
+NextOps == OpsBuild \/ OpsRefresh
 SpecOps == InitOps /\ [][NextOps]_vars
 
 -----------------------------------------------------------------------------
@@ -302,11 +313,14 @@ Finish ==
   /\ pc' = "idle"
   /\ UNCHANGED <<cfg, hist, opsvars, s, curA, prevA, ind, tv, drifted>>
 
+InducedStep == pc = "induced" /\ \E chg \in {0, 1}, again \in BOOLEAN : (ind + chg <= IMax) /\ Induced(chg, again)
+FieldStep == pc = "field" /\ \E a \in 0..AMax : Field(a)
+
 NextStep ==
   \/ Ctor \/ BeginStep
-  \/ \E a \in 0..AMax : Field(a)
+  \/ FieldStep
   \/ TrigRefresh \/ TrigSkip \/ Links \/ NoLinks \/ Euler
-  \/ \E chg \in {0, 1}, again \in BOOLEAN : (ind + chg <= IMax) /\ Induced(chg, again)
+  \/ InducedStep
   \/ Finish
 SpecStep == InitStep /\ [][NextStep]_vars
 
@@ -335,8 +349,13 @@ TypeOK ==
 \* it is decoded back (digits), so staleness can never be hidden by a coincidence of the encoding
 DecodeA(m, q) == LET S[k \in 0..NE(m) - 4] == IF k = 0 THEN 0 ELSE S[k - 1] + q[k] * Pow4[k] IN S[NE(m) - 4]
 DecodeI(m, q) == LET S[k \in 0..4] == IF k = 0 THEN 0 ELSE S[k - 1] + q[NE(m) - 4 + k] * Pow4[k] IN S[4]
-ASSUME \A name \in Insts : \A a \in 0..AMax, i \in 0..IMax :
-          LET m == InstData[name] q == QOfPot(m, a, i) IN DecodeA(m, q) = a /\ DecodeI(m, q) = i
+Min(a, b) == IF a < b THEN a ELSE b
+ASSUME \A name \in Insts :
+          LET m == InstData[name] IN
+          /\ AMax < Pow4[NE(m) - 4 + 1] /\ IMax < Pow4[5]        \* base-4 digits: unique representation
+          /\ \A k \in 1..2 * NE(m) : EdgeTab[name][LinkRow(m, k), LinkCol(m, k)] = (IF k <= NE(m) THEN k ELSE NE(m) - k)
+          /\ \A a \in 0..Min(AMax, 20), i \in 0..Min(IMax, 20) :
+                LET q == QOfPot(m, a, i) IN DecodeA(m, q) = a /\ DecodeI(m, q) = i
 
 (* ---- export for the replay against the real MeshOperators (spec -> code) ---- *)
 LapSeq(m, L) == [i \in SitesOf(m) |-> [j \in SitesOf(m) |-> L[i, j]]]
@@ -353,4 +372,5 @@ EmitExpected == (pc = "ops" /\ calls = 1) =>
 
 \* hide the history when checking properties
 ViewOps == <<cfg, opsvars, stepvars>>
+ViewStep == <<cfg, built, lap, grad, freeRows, linkQ, firstQ, stepvars>>
 =============================================================================
